@@ -61,3 +61,13 @@ check('C06',
       'Values come from finite pools; Version.save()/reload through the ORM and pickle-format v1 text are outside; field attrs are inserted in canonical order. One genuine defect (tuple-valued constraint attributes) is a known finding. Trusted: CrossHair+z3; equality/Diff of the results evaluated untraced.',
       'CrossHair symbolic execution (z3) of signature.py serialize/deserialize, serialization.py and SignatureField over symbolic shape choices; counterexamples replayed concretely',
       design_ref='5.5')
+
+check('C01',
+      'Translation validation of the SQL emitted by the real generator: for every enumerated program (4 base model sets x single mutations and ordered pairs of a 38-entry alphabet; thorough adds seeded random sequences of length 3-4) the emitted statements are executed on a real SQLite database, its catalog is introspected and compared with the catalog of the evolved models created from scratch by Django; z3 decides, over all contents of 2 symbolic rows per table, whether the two catalogs accept exactly the same contents (NOT NULL, PK, unique incl. partial, CHECK, FK). Structural parts (tables, columns, plain indexes, FK targets) are compared directly. Four families of genuine defects are known findings identified by (base, mutation kinds, difference kinds) signatures.',
+      'The quantifier over programs is enumerated, only the quantifier over table contents is decided by the solver. SQLite only; AUTOINCREMENT, collations, type affinity and index names are not compared; the evolved models come from the reference semantics in vlib/dbprog.py. Trusted: z3, vlib/sqlsmt.py (guarded by replaying every sat model against real SQLite), SQLite PRAGMA introspection.',
+      'z3 acceptance-equivalence of introspected catalogs of the evolved vs freshly created database; sat models replayed on real SQLite', category='translation_validation', design_ref='5.1')
+
+check('C02',
+      'Translation validation of the SQL emitted by the real generator: for every enumerated program the (statement, params) list is interpreted by vlib/sqlsmt.py over tables whose every cell is a z3 variable (value + NULL flag, 2 rows per table) and z3 decides whether any content makes a surviving column differ from its start value, an added column differ from its declared initial (NULL if none), a null->non-null change differ from coalesce(old, initial), a surviving table lose its rows, or a NULL reach a NOT NULL column. The expected cells are computed independently from the mutation list on model specs. Every sat model is replayed on real SQLite.',
+      'The quantifier over programs is enumerated; values are integers with strings mapped injectively (type conversions and parameter quoting are exercised only by the replay). Statements outside the modelled subset make the program "unsupported", never a violation. Trusted: z3, vlib/sqlsmt.py, the reference column tracking in vlib/e2.py.',
+      'z3 over the SMT semantics of the emitted INSERT..SELECT/UPDATE/ALTER statements with symbolic table contents; sat models replayed on real SQLite', category='translation_validation', design_ref='5.2')
